@@ -64,11 +64,11 @@ type Limits struct {
 }
 
 type Machine struct {
-	noSched int // >0 while a package initialiser runs: scheduling points are disabled
-	pools map[*Object][]Value // sync.Pool contents by pool object
-	E *Engine
-	S *sym.Store
-	Z *sym.Solver
+	noSched int                 // >0 while a package initialiser runs: scheduling points are disabled
+	pools   map[*Object][]Value // sync.Pool contents by pool object
+	E       *Engine
+	S       *sym.Store
+	Z       *sym.Solver
 
 	H       *Harness
 	Vec     []int
